@@ -44,7 +44,8 @@ def gen_avps(rng, rows_by_ty, nmax, depth):
             from diameter.message.avp.avp import get_avp_dictionary_entry
             if get_avp_dictionary_entry(a.code, v2) is not None:
                 continue             # a defined pair would need a payload of its own type
-            t = A.Avp(a.code, v2, pl, (0x80 if v2 else 0) | rng.choice([0, 0x40]))
+            # reserved flag bits travel unchanged through a generic decode / re-encode
+            t = A.Avp(a.code, v2, pl, (0x80 if v2 else 0) | rng.choice([0, 0x40]) | rng.choice([0, 0, 0x01, 0x08, 0x1f]))
             if rng.random() < 0.5:
                 objs.insert(rng.randrange(len(objs) + 1), t)
             else:
@@ -235,6 +236,24 @@ def check(run):
             run.violation("re-encode", case_d, None if re is None else re.hex()[:200], wire.hex()[:200],
                           what="re-encoding a generically decoded message does not reproduce the input")
         run.count(1, [("dec", wire[:64], len(wire))])
+        # histories: a message that has been decoded / encoded once is changed and encoded again
+        if idx % 3 == 0:
+            extra_avp = O.A.Avp(99999977, 0, b"\x01\x02\x03", 0)
+            extra_wire = O.ref_avp(99999977, 0, 0, b"\x01\x02\x03")
+            want2 = wire[:1] + (len(wire) + len(extra_wire)).to_bytes(3, "big") + wire[4:] + extra_wire
+            for label, obj in (("decoded", Message.from_bytes(wire, plain_msg=True)), ("encoded", m)):
+                if isinstance(obj, DefinedMessage):
+                    continue     # typed base classes keep decoded AVPs apart from appended ones (C03 territory)
+                try:
+                    obj.append_avp(extra_avp)
+                    w2 = obj.as_bytes()
+                except Exception as e:   # noqa
+                    w2 = None
+                if w2 != want2:
+                    run.violation("re-encode-after-change", dict(case_d, history=f"{label} once, one AVP appended, encoded again"),
+                                  None if w2 is None else {"length_field": int.from_bytes(w2[1:4], "big"), "bytes": len(w2)},
+                                  {"length_field": len(want2), "bytes": len(want2)},
+                                  what="after appending an AVP to a message that was already decoded / encoded, the emitted length field or bytes are wrong")
         if not cname.startswith("ERR:"):
             dec_cases.append(f"({O.hx(wire)}, {vlib.coq_string(cname)}, {coq_hdr(*got_h)}, "
                              f"{vlib.coq_string(pname)}, {coq_hdr(*got_ph)}, {coq_avps(got_avps)})")
